@@ -1,5 +1,5 @@
 SPECIFICATION Spec
-CONSTANT Triples = TRUE
+CONSTANTS Triples = TRUE ChainLen = 0
 INVARIANT LoopsDecideTheRules
 INVARIANT OutIsConsistent
 CHECK_DEADLOCK FALSE
